@@ -11,8 +11,8 @@
 // Proof structure: Step 1 (forward merge) counts the result pages and moves the kept left entries to the front (inv1, kept());
 // Step 2 compacts / resizes (live_ok); Steps 3-4 merge backwards in place (inv3: the output region is sorted, disjoint from
 // the still-live input entries, holds the expected page for each of its majors, and accounts for every merged source entry).
-// ASSUMED: BitPage operation contracts (proved by Kani unit U14.1), BitSet::{compact, resize, recompute_length, page_for_index,
-// page_for_index_mut} (iterator adapters / closures borrowing self outside Verus' subset; compact_pages has a bounded Kani
+// ASSUMED: BitPage operation contracts (proved by Kani unit U14.1), BitSet::{compact, resize, recompute_length,
+// page_for_index_mut} (iterator adapters / a closure capturing a mutable reference, outside Verus' subset; compact_pages has a bounded Kani
 // harness), members of a page are < 512.
 use vstd::prelude::*;
 use std::cmp::Ordering;
@@ -1010,12 +1010,15 @@ impl BitSet {
                 &&& final(self).page_map@ == old(self).page_map@ && final(self).length == old(self).length
             },
     { unimplemented!() }
-    #[verifier::external_body]
-    fn page_for_index(&self, index: usize) -> (r: Option<&BitPage>)
+//@extract source=bs container="impl BitSet" fn=page_for_index ret=r
+//@spec
         ensures
             r is Some == (index < self.page_map@.len() && self.page_map@[index as int].index < self.pages@.len()),
             r is Some ==> *r->Some_0 == self.pages@[self.page_map@[index as int].index as int],
-    { unimplemented!() }
+//@closure nth=0
+-> (o: Option<&BitPage>) ensures o is Some == (info.index < self.pages@.len()), o is Some ==> *o->Some_0 == self.pages@[info.index as int]
+//@end
+
 
 //@extract source=bs container="impl BitSet" fn=process
 //@spec
